@@ -2,6 +2,7 @@ import MesaModel.Proofs.Devs
 import MesaModel.Gen.DevsTables
 import MesaModel.Proofs.DevsHeap
 import MesaModel.Proofs.DevsLive
+import MesaModel.Proofs.DevsOrder
 /-!
 # C14 — the simulators run each live event once, in (time, priority, FIFO) order
 
@@ -252,6 +253,25 @@ theorem C14_spared_due_event_executed {s s₀ s' s'' : Sim} {t T : Int} {p a f :
   · exact hlog
 
 
+/-! ### order of execution with nested scheduling
+
+`runUntilT` is `runUntil` that also returns its trace: every event it executed, paired with the value of the id counter at the
+moment the event was popped (`Proofs/DevsOrder.lean`; erasing the trace gives `runUntil` back).  Ids are handed out in scheduling
+order, so `n ≤ e'.id` reads "`e'` was scheduled after that pop". -/
+
+/-- **Order of execution, nested scheduling included.**  Every successful `run_until` from a reachable state has a trace with:
+    the log grows by exactly the trace's entries (each at the clock of its event's time); of two events executed in the run the
+    earlier one has the smaller (time, priority, id) key **unless the later one was scheduled only after the earlier one had
+    been popped**; every traced event was live, due (`time ≤ T`) and older than the counter recorded for it. -/
+theorem C14_execution_order {s s' : Sim} {f : Nat} {T : Int} (h : Reachable s) (hr : runUntil f s T = some s') :
+    ∃ tr : List (Ev × Nat), runUntilT f s T = some (s', tr) ∧
+      s'.log = s.log ++ tr.flatMap (fun y => logOf y.1) ∧
+      tr.Pairwise (fun x y => x.1.lt y.1 = true ∨ x.2 ≤ y.1.id) ∧
+      ∀ y ∈ tr, y.1.id < y.2 ∧ y.1.cancelled = false ∧ y.1.time ≤ T := by
+  obtain ⟨tr, htr⟩ := runUntilT_of_runUntil hr
+  have hw := (reachable_inv h).1
+  exact ⟨tr, htr, runUntilT_log htr, runUntilT_ordered hw htr, runUntilT_born hw htr⟩
+
 /-! non-vacuity: a concrete run with ties, nested scheduling and a cancellation -/
 section Example
 def exProg : Nat → List Cmd
@@ -273,6 +293,11 @@ example : ProgsSpare 2 ex0 := by
   split <;> simp
 example : ((runUntil 10 ex1 4096).map fun s => s.log) =
     some [.user 2 2 1024, .user 1 1 1024, .user 3 3 1024] := by decide
+/-- the trace of that run as (id, priority, id counter at the pop): the event with id 3 (priority 5) runs after the event with
+    id 1 (priority 10) at the same time — allowed only because it was scheduled by it (3 ≤ 3): the second disjunct of
+    `C14_execution_order` is needed and is tight -/
+example : ((runUntilT 10 ex1 4096).map fun p => p.2.map fun y => (y.1.id, y.1.prio, y.2)) =
+    some [(2, 1, 3), (1, 10, 3), (3, 5, 4)] := by decide
 end Example
 
 end Mesa.Devs
